@@ -49,11 +49,11 @@ def nodupS : List String → Bool
   | x :: xs => !xs.contains x && nodupS xs
 
 /-- the tables a stored document points into are sane: distinct branch names (at most 64), the mask only uses existing
-    branches, distinct sub-repository paths, valid sections, and language detection is idempotent on it -/
+    branches, distinct sub-repository paths, valid sections, language detection is idempotent on it, and every symbol section has its metadata -/
 def docOkB (langs : List String) (r : RepoMeta) (d : Doc) : Bool :=
   nodupS r.branches && decide (r.branches.length ≤ 64) && decide (d.mask < 2 ^ r.branches.length) &&
   nodupS r.subPaths && decide (d.sub < r.subPaths.length) && secsOk (contentLen d.content) d.secs &&
-  (langs.getD d.lang "" != "" || d.redetect == "")
+  (langs.getD d.lang "" != "" || d.redetect == "") && d.syms.all (·.isSome)
 
 /-- input shard: every document points to a repository, documents of live repositories are `docOkB`, documents are
     grouped by repository -/
